@@ -90,3 +90,31 @@ def write_dbc(fcp: "ref:FcpV2") -> "result[seq[tuple[str,str]],str]":
          invariant=lambda it: buses.keys == bus_keys(can_impls(fcp), it)
          and forall(0, it, lambda k: impl_fits(fcp, can_impls(fcp)[k]))
          and group_ok(buses.messages[b0], fcp, can_impls(fcp), it, b0))
+
+
+@contract("fcp_dbc.generator:Generator.generate")
+def dbc_generate(self: "any", fcp: "ref:FcpV2", ctx: "any") -> "seq[dyn]":
+    note("C05/C14 at the plug-in's entry point: one `file` record per bus text returned by write_dbc, in the same order, carrying "
+         "that bus name and that text unchanged; an Err from write_dbc (binding without id) or its ValueError leaves as an exception, "
+         "so no record is returned for a schema with a binding that does not fit")
+    requires(forall(0, len(can_impls(fcp)), lambda k: wf_struct(fcp, can_impls(fcp)[k].type)))
+    requires(forall(0, len(can_impls(fcp)), lambda k: len(layout_names(fcp, can_impls(fcp)[k])) >= 1))
+    may_raise(ValueError)
+    may_raise(Exception)
+    fresh("b0", "str")
+    ensures(forall(0, len(can_impls(fcp)), lambda k: impl_fits(fcp, can_impls(fcp)[k])))
+    ensures(len(result) == len(bus_keys(can_impls(fcp), len(can_impls(fcp)))))
+    ensures(forall(0, len(result), lambda j: d_is_dict(result[j])))
+    ensures(forall(0, len(result), lambda j: dyn_get(result[j], "type") == to_dyn("file")))
+    ensures(forall(0, len(result), lambda j: dyn_get(result[j], "bus") == to_dyn(bus_keys(can_impls(fcp), len(can_impls(fcp)))[j])))
+    ensures(forall(0, len(result), lambda j:
+            implies(bus_keys(can_impls(fcp), len(can_impls(fcp)))[j] == b0,
+                    group_ok(db_of_text(d_name(dyn_get(result[j], "contents"))).messages, fcp, can_impls(fcp),
+                             len(can_impls(fcp)), b0))))
+    ghost_arg("write_dbc", b0=b0)
+    option("opaque", ["group_ok", "bus_keys", "impl_fits", "wf_struct", "layout_names"])
+
+
+@assumed("opaque:ctx.get")
+def ctx_get(key: "str", default: "any" = None) -> "dyn":
+    note("the generator context is a plain dict handed in by the caller: reading a key has no effect")
